@@ -227,6 +227,8 @@ package server
 //@   ensures_local [no-location] l == nil ==> err == ErrLocationNotFound && $proxied == old($proxied)
 //@   ensures_local [no-upstream] l != nil && upstream == nil ==> err == ErrUpstreamNotFound && $proxied == old($proxied)
 //@   ensures_local [contacted]   l != nil && upstream != nil ==> $proxied == old($proxied) + 1
+// C14: the location is chosen by the Host and the request URI exactly as the client sent them
+//@   precall github.com/vicanso/pike/location.Get#0 [by-host-and-uri] $arg0 == c.Request.Host && $arg1 == c.Request.RequestURI
 // C15: what the upstream is called with
 //@   precall github.com/vicanso/pike/upstream.upstreamServer.Proxy#0 [full-response] status == cache.StatusFetching && old(addsNoTrigger(l)) && l.RequestHeader != old(c.Request.Header) ==> noPartialTriggers(c.Request.Header)
 //@   precall github.com/vicanso/pike/upstream.upstreamServer.Proxy#0 [accept-encoding] upstream.Option.AcceptEncoding != "" ==> hget($hdr[c.Request.Header], "Accept-Encoding") == upstream.Option.AcceptEncoding
